@@ -125,7 +125,8 @@ CHECKS = {
                      "prefix of Crystals.dat) and every operation history up to depth 3/4 over the 40-op allocating API with every release order of the live handles are "
                      "executed twice: in an ASan+UBSan build (any report is a violation) and in a build whose malloc/free seam counts blocks allocated inside the call "
                      "window that survive the release of the result and the error (leaks are attributed to the allocating library frame).",
-                note="Allocation failure is not injected (the library does not claim to survive it: most allocations are unchecked; the property quantifies over arguments and call sequences); quick strides each function's product to 150k tuples (thorough: complete). UBSan nonnull-attribute off."),
+                note="Allocation failure: every failure point of up to 3 tuples per entry point is explored in the 'fa' / 'fa_asan' library variants (only the library's own requests fail); only the points the call "
+                     "REPORTS are judged (no leak, no sanitizer report, process intact), the others are counted - the library does not claim to survive an unchecked allocation; quick strides each function's product to 150k tuples (thorough: complete). UBSan nonnull-attribute off."),
     "C16": dict(level="model_checking", engine="HIST", ref="4/C16",
                 technique="explicit-state BFS over call histories of the real library with a whole-state key (digest of the library's writable sections, tables, locale, cwd, live blocks), closed; plus all ordered pairs and core triples",
                 text="A state is the history reaching it, replayed in a fresh process; its key digests the library's writable static storage (sections renamed at "
